@@ -271,7 +271,7 @@ class C06:
     rule = (
         "cases = payload kind {counter lines, CR/CRLF mixes, SGR escape sequences, multi-byte UTF-8, one line with/without newline, all byte values, words} x size {0 .. 200 000 (1 MiB thorough), around 1 KiB/4 KiB/64 KiB boundaries} "
         "x write chunking {1 .. 1 MiB} x inter-chunk delay x exit code x exit timing (immediately / stdout closed then lingering) x pipeline shape (external writer, threaded alias writing via buffer/text/print()/return value, "
-        "cat-like process and alias stages, early-exit `head -c`) x capture form/view {$(), !().out, iteration, .raw_out, @$()} x $THREAD_SUBPROCS x stderr noise, each run under a seeded schedule injector with p in {0, .003, .01, .03} "
+        "cat-like process and alias stages, early-exit `head -c`) x capture form/view {$(), !().out, iteration, .raw_out, @$()} x $THREAD_SUBPROCS x stderr noise, each run under a seeded schedule injector with p in {0, .003, .01, .03}, plus a one-preemption sweep: every statement line of the targeted functions held in turn (12 ms; thorough 3/12/40 ms) under four standard captures, alone and with a late reader thread, "
         "on xonsh's reader/proxy/closer functions; distinct_nontrivial = distinct (payload kind, size, chunk, shape, view, p) with a non-empty payload"
     )
     assumptions = [
